@@ -774,6 +774,9 @@ func c17Variants(res *vx.Result, st *c17Stats, only *c17Case) {
 	res.Count("variants_U1000_lines", reported.Load())
 	res.Count("variants_objects_quiet_in_p_reported_in_test_variant(not_asserted_either_way)", quietOnly.Load())
 	res.NontrivialN(nontrivial.Load())
+	if q := quietOnly.Load(); q > 0 {
+		res.Unassert(fmt.Sprintf("(c) %d objects are quiet in `p` (their owner is reported there) and reported in `p [p.test]`: the binary prints them; whether 'unused in every variant' covers a quiet object is not asserted either way", q))
+	}
 	if only == nil && len(pkgs) > 0 {
 		p := pkgs[len(pkgs)-1]
 		if len(p.files) == 2 {
